@@ -24,10 +24,20 @@ structure Ack where
   maxChunks : Nat
   deriving DecidableEq, Repr
 
-/-- `Conn.Handshake`, case "ACKF": the decoded Acknowledge, with zero
-    MaxChunkCount / MaxMessageSize replaced by the package defaults, becomes `c.ack` -/
-def clientAdopt (ack : Ack) : Ack :=
+/-- smallest buffer size the protocol allows (`minBufSize` in uacp/conn.go, Part 6 §7.1.2.3/4) -/
+def minBufSize : Nat := 8192
+
+/-- `Conn.Handshake`, case "ACKF", first check: an Acknowledge whose receive or send buffer is below
+    the protocol minimum is refused (ERR sent, error returned, the connection is not used) -/
+def handshakeAccepts (ack : Ack) : Bool := decide (minBufSize ≤ ack.rcv ∧ minBufSize ≤ ack.snd)
+
+/-- `Conn.Handshake`, case "ACKF": the decoded Acknowledge becomes `c.ack`, with its
+    ReceiveBufSize bounded by the receive buffer of the client's own Hello when that is non-zero
+    (what `Receive` allocates per frame) and zero MaxChunkCount / MaxMessageSize replaced by the
+    package defaults -/
+def clientAdopt (hello ack : Ack) : Ack :=
   { ack with
+    rcv := if hello.rcv ≠ 0 ∧ ack.rcv > hello.rcv then hello.rcv else ack.rcv
     maxChunks := if ack.maxChunks = 0 then Gen.defaultMaxChunkCount else ack.maxChunks
     maxMsg := if ack.maxMsg = 0 then Gen.defaultMaxMessageSize else ack.maxMsg }
 
@@ -39,10 +49,10 @@ structure Views where
 
 /-- client configured with `hello` (`Dialer.ClientACK`), server with `ack`
     (`uacp.Listen(…, ack)`).  The client replaces its values by the server's
-    Acknowledge wholesale; `srvhandshake` decodes the Hello and uses none of its
-    limit fields, the server keeps `l.ack`.  `hello` is therefore unused. -/
-def negotiate (_hello : Ack) (ack : Ack) : Views :=
-  { client := clientAdopt ack, server := ack }
+    Acknowledge (only its receive buffer is bounded by its own Hello); `srvhandshake`
+    decodes the Hello and uses none of its limit fields, the server keeps `l.ack`. -/
+def negotiate (hello : Ack) (ack : Ack) : Views :=
+  { client := clientAdopt hello ack, server := ack }
 
 /-! ### sending -/
 
@@ -201,6 +211,20 @@ def defaultServerAck : Ack :=
   ⟨Gen.serverACKReceiveBufSize, Gen.serverACKSendBufSize, Gen.serverACKMaxMessageSize, Gen.serverACKMaxChunkCount⟩
 
 /-! ### lemmas -/
+
+@[simp] theorem clientAdopt_snd (hello ack : Ack) : (clientAdopt hello ack).snd = ack.snd := rfl
+theorem clientAdopt_maxMsg (hello ack : Ack) :
+    (clientAdopt hello ack).maxMsg = if ack.maxMsg = 0 then Gen.defaultMaxMessageSize else ack.maxMsg := rfl
+theorem clientAdopt_maxChunks (hello ack : Ack) :
+    (clientAdopt hello ack).maxChunks = if ack.maxChunks = 0 then Gen.defaultMaxChunkCount else ack.maxChunks := rfl
+/-- the client's receive limit: its own Hello value when that is non-zero and smaller, else the Acknowledge's -/
+theorem clientAdopt_rcv (hello ack : Ack) :
+    ((clientAdopt hello ack).rcv = hello.rcv ∧ hello.rcv ≠ 0 ∧ hello.rcv < ack.rcv) ∨
+    ((clientAdopt hello ack).rcv = ack.rcv ∧ (hello.rcv = 0 ∨ ack.rcv ≤ hello.rcv)) := by
+  unfold clientAdopt
+  by_cases h : hello.rcv ≠ 0 ∧ ack.rcv > hello.rcv
+  · left; simp [h]
+  · right; simp [h]; omega
 
 theorem mem_chunkBodies {mb n b : Nat} (h : b ∈ chunkBodies mb n) (hmb : 0 < mb) : b ≤ mb := by
   unfold chunkBodies at h
